@@ -119,6 +119,12 @@ def cases(sh, tier):
         yield {"a": a, "op": op, "form": "sa", "s": 2.5, "st": "np"}
         yield {"a": a, "op": op, "form": "sa", "s": 2, "st": "np"}
         yield {"a": a, "op": op, "form": "an"}
+    # the two values for which the power is defined whatever the other operand is: base 1 (1 ** nan == 1) and exponent 0 (nan ** 0 == 1).
+    # At a coordinate that only ONE operand has, the result must still be NaN (the other operand has no value there)
+    if len(a["dims"]) == 1 and 1 <= sh["i"] <= 9:
+        for b in P[1:10]:
+            yield {"a": dict(a, enc="one"), "b": b, "op": "pow", "form": "aa"}
+            yield {"a": a, "b": dict(b, enc="zero"), "op": "pow", "form": "aa"}
 
 
 def state_key(case):
@@ -271,4 +277,11 @@ def triage_sig(case, detail, klass):
     return (klass, case["form"], case["op"] if case["form"] != "aa" else "", re.sub(r"[-0-9.]+", "#", detail)[:90])
 
 
-CLASSIFIERS = {}
+def _pow_identity(case, detail):
+    import re
+    return (case.get("op") == "pow" and case.get("form") == "aa" and not case.get("again") and not case.get("pre")
+            and (case["a"].get("enc") == "one" or case["b"].get("enc") == "zero")
+            and re.search(r"is 1(\.0)? expected nan", detail) is not None)
+
+
+CLASSIFIERS = {"pow_identity_one_sided": _pow_identity}
